@@ -1,6 +1,43 @@
 import os, sys
 sys.path.insert(0, os.path.join(os.path.dirname(__file__), '..', '..', 'tools'))
-from vlib import Unit, Query, Runner
+from vlib import Unit, Query, Runner, REPO, VERIF, sh
+import re, subprocess, threading
+_tsan_lock = threading.Lock()
+_tsan_cache = {}
+
+
+def confirm_tsan(runner, u, q, desc, vin):
+    """a counterexample of a stale-view query counts only if ThreadSanitizer sees a data race inside nitro's own code when the threads
+    log their first record at the same moment on the real build (clang++ -fsanitize=thread, real libstdc++)"""
+    kind = int([d for d in q.defs if d.startswith('-DKIND=')][0][7:])
+    nthr = int([d for d in q.defs if d.startswith('-DNTHR=')][0][7:])
+    with _tsan_lock:
+        if (kind, nthr) in _tsan_cache:
+            return _tsan_cache[(kind, nthr)]
+        exe = os.path.join(u.dir, 'tsan_replay')
+        if not os.path.exists(exe):
+            p = sh(['clang++-14', '-std=c++17', '-O1', '-g', '-w', '-fsanitize=thread', '-I', os.path.join(REPO, 'include'), os.path.join(VERIF, 'harness/C09/tsan_replay.cpp'), '-o', exe, '-pthread'], check=False)
+            if p.returncode != 0:
+                r = (False, 'ThreadSanitizer build of the real code failed: ' + p.stdout[-300:])
+                _tsan_cache[(kind, nthr)] = r
+                return r
+        r = (False, 'ThreadSanitizer: no data race inside nitro in 30 runs of %d threads logging their first record at once' % nthr)
+        for i in range(30):
+            try:
+                p = subprocess.run([exe, str(kind), str(nthr)], stdout=subprocess.PIPE, stderr=subprocess.PIPE, timeout=60, env=dict(os.environ, TSAN_OPTIONS='halt_on_error=0 exitcode=0'))
+            except subprocess.TimeoutExpired:
+                continue
+            err = p.stderr.decode('latin-1')
+            for rep in err.split('=================='):
+                if 'ThreadSanitizer: data race' in rep and re.search(r'include/nitro/', rep):
+                    loc = (re.findall(r'#0 ([^\n]*include/nitro/[^\n ]*)', rep) or re.findall(r'([^\n ]*include/nitro/[^\n ]*)', rep) or ['?'])[0]
+                    r = (True, 'ThreadSanitizer on the real build (run %d): data race inside nitro at %s -- the threads do not agree on the sink\'s own state, so (solver schedule) %s' % (i + 1, loc.strip()[:200], desc))
+                    break
+            if r[0]:
+                break
+        _tsan_cache[(kind, nthr)] = r
+        return r
+
 KINDS = {0: 'stdout_mt::sink', 1: 'StdErrThreaded::sink', 2: 'logger<..., stdout_mt, ...>::info() << record'}
 
 
@@ -17,6 +54,12 @@ def plan(tier):
             prof = [[1, 2, 97, 98, 1, 99, 0][:1 + 3 * maxrec] * nthr + [2, 5] * nthr + [0, 1, 0, 1] * 12, [maxrec, 1, 97, 0, 2, 99, 100][:1 + 3 * maxrec] * nthr + [5, 0] * nthr + [1, 0, 0, 1, 1, 0] * 8]
             qs.append(Query('k%d_t%d_r%d' % (kind, nthr, maxrec), d, W, unwind=2, hardcap=nthr * 24 + 4, est_gb=4, timeout=3000 if th else 900, profile=prof, harness_unwind=nthr * 24 + 2, trust_solver=True,
                             sample={'sink': KINDS[kind], 'threads': nthr, 'records_per_thread': '1..%d' % maxrec, 'record_bytes': '1..2 symbolic', 'schedules': 'all (symbolic scheduler)'}))
+    # "stale view" variants: every thread body extracted from the initial state of the sink's own unguarded statics (see cb_c09.c); a
+    # counterexample is a candidate that only counts after ThreadSanitizer confirmed a data race inside nitro on the real build
+    for kind in (0, 1, 2):
+        b = [x for x in qs if x.name == 'k%d_t2_r1' % kind][0]
+        qs.append(Query('stale_k%d_t2_r1' % kind, b.defs + ['-DSTALE=1'], W, unwind=2, hardcap=b.hardcap, est_gb=4, timeout=b.timeout, profile=b.profile, harness_unwind=b.harness_unwind, trust_solver=True,
+                        confirm=confirm_tsan, sample={'sink': KINDS[kind], 'threads': 2, 'records_per_thread': 1, 'view': 'each thread starts from the initial state of the sink\'s own unguarded statics (unsynchronised lazy initialisation); candidates confirmed by ThreadSanitizer on the real build'}))
     # negative control: the lock-free StdOut sink (no mutex) must be refuted by the same scheduler harness
     qs.append(Query('control_lockfree_t2_r1', ['-DKIND=9', '-DNTHR=2', '-DMAXREC=1'], [], unwind=2, hardcap=52, est_gb=4, profile=qs[0].profile, harness_unwind=50, trust_solver=True,
                     expect_fail=True, sample={'sink': 'StdOut (no lock): negative control, must be refuted', 'threads': 2}))
